@@ -12,3 +12,14 @@ package be
 //@   requires (len(val) == 9 || len(val) == 10) && s_isdigits(val)
 //@   let v10 = ite(len(val) == 9, s_concat("0", val), val)
 //@   ensures [iff] err == nil <==> s_byte(v10, 1) != 48 && dval(s_substr(v10, 8, 10), 2) == 97 - dval(s_substr(v10, 0, 8), 8) % 97
+//
+// The whole rule: nine digits, or ten digits starting with 0, and the check above.
+//@ pred beFormat(val string) bool = (len(val) == 9 && digitsIn(val, 0, 9)) || (len(val) == 10 && s_byte(val, 0) == 48 && digitsIn(val, 1, 10))
+//@ pin taxCodeRegexps []*regexp.Regexp{regexp.MustCompile(`^0?\d{9}$`)}
+//@ global len(taxCodeRegexps) == 1 && taxCodeRegexps[0] != nil && (forall s string :: reMatch(taxCodeRegexps[0], s) <==> beFormat(s))
+//@ func validateTaxCode(value) (err)
+//@   let code = unboxed(value, cbc.Code)
+//@   let v10 = ite(len(code) == 9, s_concat("0", code), code)
+//@   ensures [iff] typeis(value, cbc.Code) && code != "" ==> (err == nil <==> beFormat(code) && s_byte(v10, 1) != 48 && dval(s_substr(v10, 8, 10), 2) == 97 - dval(s_substr(v10, 0, 8), 8) % 97)
+//@   ensures [skip] !typeis(value, cbc.Code) || code == "" ==> err == nil
+//@   loop 1 invariant !match && (forall j int :: 0 <= j && j < idx ==> !reMatch(taxCodeRegexps[j], val))
